@@ -22,9 +22,17 @@ impl Emitter for FilesWithBackupEmitter {
             let tmp_name = filename.with_extension("tmp");
             let bk_name = filename.with_extension("bk");
 
+            #[cfg(rustfmt_verif)]
+            crate::verif_hooks::crash_point("bk:before_write_tmp")?;
             fs::write(&tmp_name, formatted_text)?;
+            #[cfg(rustfmt_verif)]
+            crate::verif_hooks::crash_point("bk:after_write_tmp")?;
             fs::rename(filename, bk_name)?;
+            #[cfg(rustfmt_verif)]
+            crate::verif_hooks::crash_point("bk:after_rename_bk")?;
             fs::rename(tmp_name, filename)?;
+            #[cfg(rustfmt_verif)]
+            crate::verif_hooks::crash_point("bk:after_rename_tmp")?;
         }
         Ok(EmitterResult::default())
     }
